@@ -199,6 +199,12 @@ func init() {
 			}
 			for _, src := range shapeFamily(small, leavesStandard, false, "BI") {
 				add(src, "w", "", "")
+				if strings.Contains(src, "KI") {
+					add(src, "r", "", "") // integer constants of a non-canonical Go type
+				}
+			}
+			for _, src := range []string{"(= KI0 10)", "(if (= KI0 10) 1 2)", "(and (= KI0 KI1) b0)", "(or b0 (!= KI0 3))", "(eq KI0 KI0 7)", "(> (+ KI0 1) i0)"} {
+				add(src, "r", "", "")
 			}
 			for _, src := range shapeFamily(small, leavesVarsOnly, false, "BI") {
 				if strings.Contains(src, "and") || strings.Contains(src, "or") {
@@ -384,7 +390,8 @@ func tierConfigs(tier string) string {
 
 func init() {
 	registerProp(&PropSpec{
-		ID: "C07",
+		ID:   "C07",
+		Race: true,
 		Units: func(tier string, seed int64, sh *Shared) []Unit {
 			return withoutAliases(func() []Unit {
 				c := tierConfigs(tier)
@@ -396,6 +403,14 @@ func init() {
 					units = append(units, Unit{"VerifC07", []string{"(> " + src + " i2)", "hist", "", "v", "0000,1111"}})
 				}
 				units = append(units, Unit{"VerifC07", []string{"(> (+ i0 i1 i2 i3 i4 i5 i6 i7 i8 i9 i10 i11 i12 i13 i14 i15 i16 i17) i18)", "foot", "event", "v", c}})
+			// long lists (the hashing path of overlap / in)
+			var la, lb []string
+			for k := 0; k < 60; k++ {
+				la = append(la, itoa2(k))
+				lb = append(lb, itoa2(100+k))
+			}
+			long := "(and (> i0 0) (overlap (" + strings.Join(la, " ") + ") (" + strings.Join(lb, " ") + ")))"
+			units = append(units, Unit{"VerifC07", []string{long, "foot", "", "v", "0000,1111"}}, Unit{"VerifC07", []string{"(or b0 " + long + ")", "foot", "event", "v", "0000"}})
 				for _, src := range []string{"(in i0 (1 2 3 4 5 6 7 8 9 10 11 12))", "(and b0 (in i0 (1 2 3 4 5 6 7 8 9)) (in i1 (1 2)))", "(overlap (1 2 3 4 5 6 7 8 9 10) (11 12 13 14 15 16 17 18 19 20 1))",
 					"(or (in i0 (3 4 5 6 7 8 9 10 11)) (= i1 (+ i0 1)))", "(if (in i0 (1 2 3 4 5 6 7 8 9)) (+ i1 1) (- i1 1))"} {
 					units = append(units, Unit{"VerifC07", []string{src, "foot", "", "v", c}})
@@ -946,7 +961,7 @@ func init() {
 						units = append(units, Unit{"VerifC06Text", []string{itoa2(l), nt, "", ""}})
 					}
 				}
-				ctxs := [][3]string{{"prefix", "(", ")"}, {"prefix", "(+ 1 ", ")"}, {"prefix", "(= a \"x", "\")"}, {"prefix", ";; c", "\n(+ 1 1)"}, {"prefix", "(in a (1 ", "))"},
+				ctxs := [][3]string{{"prefix", "(", ")"}, {"prefix", "(+ 1 ", ")"}, {"prefix", "(= a \"x", "\")"}, {"prefix", ";; c", "\n(+ 1 1)"}, {"prefix", ";;;;", "\n(+ 1 1)"}, {"prefix", ";;;; optimize", "\n(+ 1 1)"}, {"prefix", ";;;; optimize:", ", reordering\n(+ 1 1)"}, {"prefix", ";;;;reordering:tru", "\n(+ 1 1)"}, {"prefix", "(in a (1 ", "))"},
 					{"infix", "a + ", ""}, {"infix", "", " + 1"}, {"infix", "if(a, ", ", 1)"}, {"infix", "in(a, [1 ", "])"}, {"infix", "!", ""}, {"infix", "(a ", " 1)"}}
 				for _, c := range ctxs {
 					for l := 1; l <= maxL && l <= 2; l++ {
@@ -1051,14 +1066,15 @@ func init() {
 			}
 			// formatter
 			maxL := 3
-			if tier == "thorough" {
-				maxL = 4
-			}
 			for l := 0; l <= maxL; l++ {
 				units = append(units, Unit{"VerifC14Format", []string{itoa2(l), "", ""}})
 			}
 			for _, c := range [][2]string{{"(= s \"a", "\")"}, {"(= s \"", "\")"}, {"(and a ;c", "\n b)"}, {"a", "b"}, {"(in a (1 ", "))"}, {"(a", ")"}, {"\"x\"", "\"y\""}, {"a,", " b"}, {"[1 ", "]"}, {";;;; optimize:false\n", "(+ 1 1)"}, {"(and\n  a\n  ", "\n  b)"}} {
-				for l := 1; l <= 2; l++ {
+				lmax := 2
+				if tier == "thorough" {
+					lmax = 3
+				}
+				for l := 1; l <= lmax; l++ {
 					units = append(units, Unit{"VerifC14Format", []string{itoa2(l), c[0], c[1]}})
 				}
 			}
@@ -1074,11 +1090,8 @@ func init() {
 		Reach: []string{"layout", "layout-compiles", "formatted", "lexes", "format-expr"},
 		Bounds: func(tier string) map[string]interface{} {
 			l := 3
-			if tier == "thorough" {
-				l = 4
-			}
 			return map[string]interface{}{"relayout": "7 token sequences (prefix and infix, with string literals containing spaces, parentheses and ';', and two that do not compile); every gap (quick: every gap of the first three, every other gap of the rest) filled with 1-2 arbitrary Unicode spaces of the alphabet, a comment with 2 arbitrary characters, a ;;;; directive (must be inert), or nothing where a delimiter allows it; leading and trailing spaces",
-				"formatter": "every text of ≤" + itoa(l) + " characters and 1-2 arbitrary characters inside 11 contexts (inside and around string literals, comments, lists, directives), against a 50-line reference lexer; 13 whole expressions; formatter applied twice",
+				"formatter": "every text of ≤" + itoa(l) + " characters and 1-2 (thorough: 3) arbitrary characters inside 11 contexts (inside and around string literals, comments, lists, directives), against a 50-line reference lexer; 13 whole expressions; formatter applied twice",
 				"alphabet":  "all of Latin-1 (solver variable) + U+1680, U+2028, U+3000, '中', '٣', U+FFFD, U+10FFFF, NUL"}
 		},
 		Rule:        "layout units: one per (token sequence, gap, filler kind); formatter units: one per (length, context); a state is one symbolic path (character classes are found by the solver)",
